@@ -71,21 +71,21 @@ def run(ck):
                 return comp, r, st
 
             paths = paths_of(prog, th, stubs=STUBS)
-            p = single(paths, name)
-            comp, r, st = p.value
-            sval = sterm(mk()) if mk else None
-            w = want(sval) if mk else want(None)
-            got = r.term if isinstance(r, VTens) else num_term(r)
-            if got == w:
-                ck.ok("C16.R1", name, osite, value=got)
-            else:
-                d = lin_diff(got, w)
-                ck.check(diff_verdict(d), "C16.R1", name, osite, "composite %s evaluates to %r; expected %r (%s)" % (name, got, w, diff_msg(d)))
-            # R3: statistics are those of the combined per-sample value
-            vm = [c for c in p.interp.ext_calls if c[0] == "torch.var_mean"]
-            okv = len(vm) == 1 and isinstance(vm[0][1][0], VTens) and vm[0][1][0].term == got
-            ck.check(okv, "C16.R3", name + ":statistics of the combined value", prog.method("ObservableBase", "statistics_from_samples").site(),
-                     "statistics_from_samples of the composite does not take mean/variance of its own apply() value")
+            for p in returning(paths, name):
+                comp, r, st = p.value
+                sval = sterm(mk()) if mk else None
+                w = want(sval) if mk else want(None)
+                got = r.term if isinstance(r, VTens) else num_term(r)
+                if got == w:
+                    ck.ok("C16.R1", name, osite, value=got)
+                else:
+                    d = lin_diff(got, w)
+                    ck.check(diff_verdict(d), "C16.R1", name, osite, "composite %s evaluates to %r; expected %r (%s)" % (name, got, w, diff_msg(d)))
+                # R3: statistics are those of the combined per-sample value
+                vm = [c for c in p.interp.ext_calls if c[0] == "torch.var_mean"]
+                okv = len(vm) == 1 and isinstance(vm[0][1][0], VTens) and vm[0][1][0].term == got
+                ck.check(okv, "C16.R3", name + ":statistics of the combined value", prog.method("ObservableBase", "statistics_from_samples").site(),
+                         "statistics_from_samples of the composite does not take mean/variance of its own apply() value")
     # ------------------------------------------------------------------ R2 constructor type cases
     sumc, prodc = prog.cls("SumObservable"), prog.cls("ProdObservable")
 
@@ -105,16 +105,16 @@ def run(ck):
         for r in ("b", "s", "t"):
             inst = "SumObservable(%s, %s)" % (l, r)
             with ck.guard("C16.R2", inst):
-                p = single(build_cls(sumc, l, r), inst)
-                got = p.value.term if isinstance(p.value, VTens) else num_term(p.value)
-                w = val[l] + val[r]
-                ck.check(got == w, "C16.R2", inst, prog.method("SumObservable", "apply").site(), "%s evaluates to %r; each operand must be added exactly once (%r)" % (inst, got, w))
+                for p in returning(build_cls(sumc, l, r), inst):
+                    got = p.value.term if isinstance(p.value, VTens) else num_term(p.value)
+                    w = val[l] + val[r]
+                    ck.check(got == w, "C16.R2", inst, prog.method("SumObservable", "apply").site(), "%s evaluates to %r; each operand must be added exactly once (%r)" % (inst, got, w))
     for l, r, w in (("a", "s", s_ * A), ("s", "a", s_ * A), ("t", "b", t_ * B), ("b", "t", t_ * B)):
         inst = "ProdObservable(%s, %s)" % (l, r)
         with ck.guard("C16.R2", inst):
-            p = single(build_cls(prodc, l, r), inst)
-            got = p.value.term if isinstance(p.value, VTens) else num_term(p.value)
-            ck.check(got == w, "C16.R2", inst, prog.method("ProdObservable", "apply").site(), "%s evaluates to %r; expected %r" % (inst, got, w))
+            for p in returning(build_cls(prodc, l, r), inst):
+                got = p.value.term if isinstance(p.value, VTens) else num_term(p.value)
+                ck.check(got == w, "C16.R2", inst, prog.method("ProdObservable", "apply").site(), "%s evaluates to %r; expected %r" % (inst, got, w))
     rejects = [(prodc, "a", "b", "ValueError"), (prodc, "s", "t", "ValueError"), (prodc, "a", "str", "TypeError"), (prodc, "none", "a", "TypeError"),
                (sumc, "a", "str", "TypeError"), (sumc, "list", "a", "TypeError"), (sumc, "none", "s", "TypeError")]
     for cls, l, r, exc in rejects:
